@@ -185,6 +185,9 @@ def run(ctx):
 
 def replay(ctx, rp):
     """re-run a replay file's case on the real writer / reader and print what they answer"""
+    if str(rp.get("engine") or (rp.get("first_difference") or {}).get("engine") or "").startswith("realloop"):
+        from engines import realloop   # second engine of this property; check.py hands every replay to the first
+        return realloop.replay(ctx, rp)
     inp = rp.get("input") or (rp.get("first_difference") or {}).get("input") or {}
     case = inp.get("case")
     if case is None:
